@@ -49,7 +49,8 @@ Definition registry := list (string * container).
 
 (* ---------------------------------------------------------------- items *)
 Definition gid := (string * N)%type.           (* GlobalId { crate_, id } *)
-Definition gid_eqb (a b : gid) : bool := String.eqb (fst a) (fst b) && N.eqb (snd a) (snd b).
+(* (the number is compared first: same truth value, and unequal ids mostly differ there) *)
+Definition gid_eqb (a b : gid) : bool := N.eqb (snd a) (snd b) && String.eqb (fst a) (fst b).
 
 Inductive kind :=
 | KStructUnit | KStructPlain (ids : list N) | KStructTuple (ids : list N)
@@ -182,8 +183,10 @@ Definition request_container : container :=
 
 (* the [container] relation, in an order determined by the order of the edges (the order the code
    produces depends on hash iteration order; the theorems quantify over all orders) *)
+Definition derived_containers (es : edges) : list (string * container) :=
+  flat_map (fun e => container_of (fst e) es) es ++ range_containers es.
 Definition containers (es : edges) : list (string * container) :=
-  flat_map (fun e => container_of (fst e) es) es ++ range_containers es ++ [("Request", request_container)].
+  derived_containers es ++ [("Request", request_container)].
 
 (* ---------------------------------------------------------------- collect into a BTreeMap *)
 Fixpoint insert (k : string) (v : container) (m : registry) : registry :=
@@ -367,7 +370,7 @@ Definition item_eqb_shallow (a b : item) : bool :=
 
 (* the facts about a description the theorems need as hypotheses, as a checkable predicate:
    an id names one item; declared child ids are distinct; a declared variant that is present has a
-   name and is of a variant kind; a declared field that is present is a struct field *)
+   name and is of a variant kind; a declared field that is present is a struct field; make_range only builds structs *)
 Definition wf_edges (es : edges) : bool :=
   let its := items_of es in
   forallb (fun a => forallb (fun b => negb (same_item a b) || item_eqb_shallow a b) its) its
@@ -381,4 +384,23 @@ Definition wf_edges (es : edges) : bool :=
                        || match it_kind (snd e), it_fmt (snd e) with
                           | KField, Some f => negb (fmt_has_todo f)
                           | _, _ => false
-                          end) es.
+                          end) es
+  && forallb (fun e => match it_range (snd e) with Some (CStruct _) | None => true | Some _ => false end) es.
+
+(* ---------------------------------------------------------------- decidable side conditions of the theorems *)
+(* the type names a field item brings into the registry *)
+Definition names_of_item (f : item) : list string :=
+  match it_fmt f with Some t => fmt_names t | None => [] end
+  ++ match it_range f with Some c => container_names c | None => [] end.
+(* a container called [s] is derived from the edges (by an item with an outgoing edge, or the Range rule) *)
+Definition definesb (es : edges) (s : string) : bool :=
+  existsb (fun kc => String.eqb (fst kc) s) (derived_containers es).
+(* every type name used by a field that is present names such an item *)
+Definition resolvedb (es : edges) : bool :=
+  forallb (fun e => negb (has_field (fst e) (snd e)) || forallb (definesb es) (names_of_item (snd e))) es.
+(* no two different containers carry the same name *)
+Definition unambiguousb (l : list (string * container)) : bool :=
+  forallb (fun a => forallb (fun b => negb (String.eqb (fst a) (fst b)) || container_eqb (snd a) (snd b)) l) l.
+
+Definition remove_key (k : string) (m : registry) : registry :=
+  filter (fun kc => negb (String.eqb (fst kc) k)) m.
